@@ -299,7 +299,7 @@ class Ctx:
 
     # ------------------------------------------------------------------ results
     def violation(self, scenario, events, what, spec_state=None):
-        d = os.path.join(VERIF, "replays", self.pid)
+        d = os.path.join(os.environ.get("VERIF_REPLAY_DIR") or os.path.join(VERIF, "replays"), self.pid)
         os.makedirs(d, exist_ok=True)
         h = hashlib.sha1(json.dumps(scenario, sort_keys=True).encode()).hexdigest()[:10]
         path = os.path.join(d, "%d-%s.json" % (self.seed, h))
